@@ -176,25 +176,25 @@ CHECKS = {
 
 # what later rounds added to each check (appended to the level text)
 ADDENDA = {
-    'C01': ' Also: nesting at 19 depths from 100 to 100000 around the interpreter\'s recursion limits, a method returning a JSON-encodable value that is not in JSON normal form, dispatchers configured with pass-through middlewares / identity error handlers. Round 5: a truthy non-boolean concurrent_batch, deep values echoed back, no handler task left running when dispatch returns. Round 6: a response text must be encodable as UTF-8; strings with escapes (lone surrogates) are echoed back. Round 7: long client text of 2-, 3- and 4-byte characters at every position (G4), documents served with DEBUG logging on (G5), response classes with a truth value of their own.',
-    'C02': ' Also: batches whose elements pass equal-valued arguments of different JSON types (1 / 1.0 / true), long batches at 21 lengths up to 1001, methods registered through each public route after they were first requested. Round 5: every method validated by one PydanticValidator (flavours sync-pd / async-pd), null arguments, deep values echoed back (L5 leniency). Round 6: a stateful class based view registered without a context. Round 7: handling failures before the method body (-32603) as calls and as notifications, alone and in batches; response classes whose error responses are falsy.',
+    'C01': ' Also: nesting at 19 depths from 100 to 100000 around the interpreter\'s recursion limits, a method returning a JSON-encodable value that is not in JSON normal form, dispatchers configured with pass-through middlewares / identity error handlers. Round 5: a truthy non-boolean concurrent_batch, deep values echoed back, no handler task left running when dispatch returns. Round 6: a response text must be encodable as UTF-8; strings with escapes (lone surrogates) are echoed back. Round 7: long client text of 2-, 3- and 4-byte characters at every position (G4), documents served with DEBUG logging on (G5), response classes with a truth value of their own. Round 9: batches in which several ids are repeated, of mixed types.',
+    'C02': ' Also: batches whose elements pass equal-valued arguments of different JSON types (1 / 1.0 / true), long batches at 21 lengths up to 1001, methods registered through each public route after they were first requested. Round 5: every method validated by one PydanticValidator (flavours sync-pd / async-pd), null arguments, deep values echoed back (L5 leniency). Round 6: a stateful class based view registered without a context. Round 7: handling failures before the method body (-32603) as calls and as notifications, alone and in batches; response classes whose error responses are falsy. Round 9: flavours served with DEBUG logging on.',
     'C03': ' Also: dispatchers with pass-through middlewares / identity handlers, deep nesting judged with the L5 leniency. Round 5: each error response is read back through the client-side Response.from_json and compared with what the method raised. Round 6: method bodies that themselves make a call python refuses (TypeError with call-refusal wording). Round 7: an application error class with its own constructor, dispatchers with identity error handlers for every failure. Round 8: every unexpected exception also with DEBUG logging on.',
     'C04': ' Also: static and class methods of views, coroutine functions behind plain decorators. Round 5: handlers registered as functools.partial objects and as instances of class based decorators. Round 6: parameters named like the library\'s own names (signature, method, params, self ...); a method that consumes its arguments in place with the identical request sent again. Round 7: returned (not raised) error objects and falsy values become the result, error handlers not run. Round 8: an object as the single positional argument; handlers whose annotations cannot be evaluated.',
-    'C05': ' Also an aliasing oracle: containers of a deserialised message are modified in place and later deserialisations must be unaffected. Round 5: the server-side encoder class, messages nested inside other values, non-strict batch containers. Round 6: a registered error class with a class attribute named data.',
-    'C06': ' Also the typed entry points (from_json on classes that have a code of their own, Response.from_json with such an error_cls). Round 5: has_error / is_notification must follow the contents after every (also refused) append / extend. Round 6: valid messages whose members are nested 100..1400 deep. Round 7: the number 2.0 as protocol version; a second pass with warnings turned into errors.',
-    'C07': ' Also END TO END: the four real client backends (requests, httpx sync / async, aiohttp) through the three real web-framework integrations in-process; methods registered as coroutine-returning plain functions / callable objects / behind one shared decorator; a refused batch[...] repeated on the same wrapper. Round 5: other endpoints added after the main one in every end-to-end application, a stateful view registered without context, hand-built non-strict batches. Round 7: dicts whose keys are of several JSON-legal python types as arguments and as return value.',
+    'C05': ' Also an aliasing oracle: containers of a deserialised message are modified in place and later deserialisations must be unaffected. Round 5: the server-side encoder class, messages nested inside other values, non-strict batch containers. Round 6: a registered error class with a class attribute named data. Round 9: messages whose params / result / error data are nested 50..750 deep, through the whole round trip.',
+    'C06': ' Also the typed entry points (from_json on classes that have a code of their own, Response.from_json with such an error_cls). Round 5: has_error / is_notification must follow the contents after every (also refused) append / extend. Round 6: valid messages whose members are nested 100..1400 deep. Round 7: the number 2.0 as protocol version; a second pass with warnings turned into errors. Round 9: non-finite floats in every member position, all standard codes with the server modules imported, several repeated ids per batch, and a child pass under python -O (strictness must not rest on assert statements).',
+    'C07': ' Also END TO END: the four real client backends (requests, httpx sync / async, aiohttp) through the three real web-framework integrations in-process; methods registered as coroutine-returning plain functions / callable objects / behind one shared decorator; a refused batch[...] repeated on the same wrapper. Round 5: other endpoints added after the main one in every end-to-end application, a stateful view registered without context, hand-built non-strict batches. Round 7: dicts whose keys are of several JSON-legal python types as arguments and as return value. Round 9: a client configured with its own request class - every notation, notifications and batch notations included, puts objects of that class on the wire.',
     'C08': ' Also message-less / ill-typed error objects for registered codes and non-strict request containers. Round 5: result together with a falsy error member, batches extended through item access after add(). Round 7: requests passed inline stay linked to their responses, calls sharing an id in a non-strict request container, and (E4) 2-3 single calls in flight on one asynchronous client answered with their own / another pending call\'s / an unknown id under every completion order. Round 8: repeated ids carrying identical payloads; version strings that are substrings of 2.0.',
-    'C09': ' Also: two requests in a row through one long-lived client / strategy object, lenient clients whose transport hands back an error reply to a notification; a send beyond n+1 ends the execution and is reported. Round 5: a listed code in the reserved server-error range, not-JSON / not-a-response / identity failures as attempts, and the PHYSICAL sends of the real requests backend with its default session (the call into urllib3\'s connection pool is the scripted environment). Round 6: the harness owns time.time / monotonic / perf_counter and attempts can take virtual time; listed code 0; a per-request strategy replaces (never merges with) the client-wide one; answered batches with a failed member are not re-sent. Round 7: backoffs configured by position in the documented parameter order.',
-    'C10': ' Also falsy / numeric ids and (not exhaustive over schedules) batches of 5..257 elements under three fixed completion orders. Round 5: coroutine-returning plain functions, a code-specific rewriting handler next to the generic one, per-element context variables set by a middleware. Round 6: dispatchers obtained from the aiohttp integration\'s keyword options; failures before the method body and TypeError-raising plain functions; a handler that writes into the error it is given. Round 7: a response class whose error responses are falsy.',
-    'C11': ' Also the four real client backends compared over 7 924 scripted HTTP answers (status x content type x body x raise_for_status x strict x default content type). Round 5: differences in later requests of one long-lived client are part of the comparison. Round 6: a configured json_encoder / json_dumper must be handed the same objects by both halves. Round 7: replies that declare and use a charset other than utf-8.',
-    'C12': ' Also requests failing with -32603 before the method body, the same handler / middleware object listed several times (identical and equal-but-distinct callables), suspending middlewares in concurrent batches. Round 5: error handlers that return Futures. Round 6: error code 0; handlers that enrich the error in place with several internal failures in one batch. Round 7: handler mappings filled per-code first; a middleware that appends to request.params in place, requests without a params member (every request served twice).',
+    'C09': ' Also: two requests in a row through one long-lived client / strategy object, lenient clients whose transport hands back an error reply to a notification; a send beyond n+1 ends the execution and is reported. Round 5: a listed code in the reserved server-error range, not-JSON / not-a-response / identity failures as attempts, and the PHYSICAL sends of the real requests backend with its default session (the call into urllib3\'s connection pool is the scripted environment). Round 6: the harness owns time.time / monotonic / perf_counter and attempts can take virtual time; listed code 0; a per-request strategy replaces (never merges with) the client-wide one; answered batches with a failed member are not re-sent. Round 7: backoffs configured by position in the documented parameter order. Round 9: unlisted exceptions raised from listed ones; the real httpx backends answered 429 / 503 with Retry-After; short-lived per-request strategies on one long-lived client.',
+    'C10': ' Also falsy / numeric ids and (not exhaustive over schedules) batches of 5..257 elements under three fixed completion orders. Round 5: coroutine-returning plain functions, a code-specific rewriting handler next to the generic one, per-element context variables set by a middleware. Round 6: dispatchers obtained from the aiohttp integration\'s keyword options; failures before the method body and TypeError-raising plain functions; a handler that writes into the error it is given. Round 7: a response class whose error responses are falsy. Round 9: a middleware that fails for notifications - dispatch may raise, an answer if given lists exactly the calls.',
+    'C11': ' Also the four real client backends compared over 7 924 scripted HTTP answers (status x content type x body x raise_for_status x strict x default content type). Round 5: differences in later requests of one long-lived client are part of the comparison. Round 6: a configured json_encoder / json_dumper must be handed the same objects by both halves. Round 7: replies that declare and use a charset other than utf-8. Round 9: dispatcher twins whose json_dumper ignores the proposed encoder class.',
+    'C12': ' Also requests failing with -32603 before the method body, the same handler / middleware object listed several times (identical and equal-but-distinct callables), suspending middlewares in concurrent batches. Round 5: error handlers that return Futures. Round 6: error code 0; handlers that enrich the error in place with several internal failures in one batch. Round 7: handler mappings filled per-code first; a middleware that appends to request.params in place, requests without a params member (every request served twice). Round 9: a 300-element batch through short stacks.',
     'C13': ' Also retention after cancelled asynchronous dispatches and 2-3 overlapping dispatch() calls on one AsyncDispatcher under every completion order. Round 5: two middlewares on every dispatcher (thread schedules cover the very first dispatches), retention of the framework\'s request objects through the werkzeug / aiohttp integrations, handlers that come and go while the process-wide default validator lives on. Round 6: interpreter-wide settings unchanged after every case; a decoder class that keeps per-document state. Round 7: allocated memory (tracemalloc) over 1000 further requests, requests with extension members and ever new ids, an application encoder plus unencodable results inside the histories. Round 8: aiohttp requests cancelled while suspended in a method; allocated memory of the three integrations under ever new error codes.',
-    'C14': ' Also schemas that declare their dialect (draft-03 / -04 / -06 / -07 keywords), constraints in Annotated metadata, bodies that modify their arguments in place with every such call made twice, equal-comparing signatures under one validator. Round 5: context-only / parameterless methods called in turn with params omitted / [] / {}. Round 6: variadic methods called without extras under each validator (open known finding for the pydantic validator), a Decimal-bounded parameter, requests dispatched without a context, one function registered twice with two schemas. Round 7: model configuration extra=ignore / allow, positional-only parameters (refusals), dispatchers whose loader yields Decimal values. Round 8: the annotation keyword default in schemas; the schema object handed to the validator stays untouched.',
+    'C14': ' Also schemas that declare their dialect (draft-03 / -04 / -06 / -07 keywords), constraints in Annotated metadata, bodies that modify their arguments in place with every such call made twice, equal-comparing signatures under one validator. Round 5: context-only / parameterless methods called in turn with params omitted / [] / {}. Round 6: variadic methods called without extras under each validator (open known finding for the pydantic validator), a Decimal-bounded parameter, requests dispatched without a context, one function registered twice with two schemas. Round 7: model configuration extra=ignore / allow, positional-only parameters (refusals), dispatchers whose loader yields Decimal values. Round 8: the annotation keyword default in schemas; the schema object handed to the validator stays untouched. Round 9: a schema configured on the validator object with bare decorators; one validator shared by methods with different validate() arguments in every order of calls.',
     'C15': ' Also one decorator object applied to several functions, DEBUG logging switched on, names requested before they are registered through dispatcher.registry. Round 5: names re-registered through each public route after they had been called, a registered view method whose constructor fails for the request. Round 6: a registry and the dispatchers it was attached to do not share their tables; add_methods() registers its arguments in order. Round 7: names that are (str, Enum) members; E5 - a name registered again (add / add_methods / merge / view) while another thread dispatches it, <= 1/2 preemptions at line granularity. Round 8: view members behind functools.lru_cache / class based decorators.',
     'C16': ' Also opaque annotations (refusal accepted, omission not), error classes sharing a code, and the documents as SERVED by the aiohttp / flask integrations: every documented path#method is POSTed back to the same application and must reach its method. Round 5: an extension mounted on a blueprint with a url prefix, several specifications served by one aiohttp application, two threads generating from one specification object (E5 at function-entry granularity). Round 6: served documents - same-named methods with different signatures per endpoint (one open known finding without component_name_prefix), enum members in user documentation. Round 7: two preemptions in the thread part in both tiers; the document served again after a later registration and re-registration. Round 8: content descriptors with required unset, handlers carrying a PEP 702 marker, factory-made handlers sharing a qualified name.',
     'C17': ' Also long-lived specification objects shared by all programs, method names differing only in separators / case (one open known finding), a context designated positionally under another name. Round 5: static / class methods of views, one long-lived pydantic validator for all programs. Round 6: Field(...) objects as python defaults under the pydantic validator. Round 7: parameter names that are BaseModel attributes (schema, copy, json ...), JSON-Schema validated methods with a context, requests dispatched without a context object. Round 8: an exclusion predicate keyed on \'default is None\', handlers behind functools.wraps with their own __signature__, validation marked after registration and merged.',
-    'C18': ' Also charset / version parameters, request sequences of length 2-3 on one long-lived application (aiohttp replies read from what the response wrote to a recording payload writer), the process-wide default content type as a configuration. Round 5: unbindable-parameter bodies, Accept / other request headers, a result with keys of several types (open known finding for flask\'s main endpoint), two threads posting to one werkzeug / flask application under every schedule with <= 1/2 preemptions. Round 6: applications mounted under an outer application / blueprint prefix, a flask hook that reads the body first, chunked request bodies, main-endpoint middlewares vs added endpoints, a status function whose answer changes between replies, escaped unpaired surrogates echoed back. Round 7: status codes without a name in http.HTTPStatus, two extension objects alive in one process (both orders of initialisation), an integration that cannot be initialised is a violation.',
-    'C19': ' Also tracers whose handlers are instance attributes (set before / after the client is built) and two threads sharing one traced client under every schedule with <= 1/2 preemptions. Round 5: the library\'s LoggingTracer among the tracers, a transport re-raising one stored exception object, parameters that cannot be serialised, concurrent asynchronous attempts sharing one trace context under every completion order. Round 6: answered batches in which one call failed. Round 7: DEBUG logging on when the client is constructed; under overlap every event of an attempt carries that attempt\'s own trace context (default / shared / caller-supplied per call).',
+    'C18': ' Also charset / version parameters, request sequences of length 2-3 on one long-lived application (aiohttp replies read from what the response wrote to a recording payload writer), the process-wide default content type as a configuration. Round 5: unbindable-parameter bodies, Accept / other request headers, a result with keys of several types (open known finding for flask\'s main endpoint), two threads posting to one werkzeug / flask application under every schedule with <= 1/2 preemptions. Round 6: applications mounted under an outer application / blueprint prefix, a flask hook that reads the body first, chunked request bodies, main-endpoint middlewares vs added endpoints, a status function whose answer changes between replies, escaped unpaired surrogates echoed back. Round 7: status codes without a name in http.HTTPStatus, two extension objects alive in one process (both orders of initialisation), an integration that cannot be initialised is a violation. Round 9: two pjrpc Applications on one aiohttp application with different status functions; a specification with an error status map and no status function; two application objects alive in one process for every integration.',
+    'C19': ' Also tracers whose handlers are instance attributes (set before / after the client is built) and two threads sharing one traced client under every schedule with <= 1/2 preemptions. Round 5: the library\'s LoggingTracer among the tracers, a transport re-raising one stored exception object, parameters that cannot be serialised, concurrent asynchronous attempts sharing one trace context under every completion order. Round 6: answered batches in which one call failed. Round 7: DEBUG logging on when the client is constructed; under overlap every event of an attempt carries that attempt\'s own trace context (default / shared / caller-supplied per call). Round 9: a tracer that raises from its completion handler.',
     'C20': ' Also callbacks that make nested calls through the same mocker (a watchdog turns an unanswered call into a violation) and by-name parameters called id / callback / method. Round 5: batches of one element, the real client backends under the mocker with 12 differently spelled endpoint urls. Round 6: passthrough to the real backends\' transports, configured falsy / absent error data compared. Round 7: the identical request text sent repeatedly to callbacks that consume their container arguments; every history <1..3 patches, 0..4 calls, remove(method|endpoint), 1..3 new patches, full rotation> with every step compared. Round 8: an empty batch sent to an endpoint without patches; a callback that calls the same mocked method again.',
 }
 
